@@ -244,6 +244,24 @@ func VerifDecodePage(b []byte) (p *VerifPage, err error) {
 	return verifDump(n), nil
 }
 
+// VerifReencode decodes one page image and encodes the resulting node again.
+func VerifReencode(b []byte) (out []byte, err error) {
+	defer func() {
+		if r := recover(); r != nil {
+			err = fmt.Errorf("panic: %v", r)
+		}
+	}()
+	n, err := verifDecode(b)
+	if err != nil {
+		return nil, err
+	}
+	buf, err := n.encode()
+	if err != nil {
+		return nil, err
+	}
+	return buf.Bytes(), nil
+}
+
 // VerifStoreRoundTrip writes the node through a file store at path and reads
 // it back through a second, cold store.
 func VerifStoreRoundTrip(path string, v *VerifNode) (p *VerifPage, err error) {
